@@ -276,7 +276,7 @@ def walkTy (L : List Nat) (id : Nat) : Ty → Block → Option (List Nat × List
   | .arrFixed n t, p => walkFixedS L n (isByte t) (fun body => elemNil (walkTy [] 0 t body)) p
   | .arrVar var t, p => walkVarS L var (isByte t) (fun body => elemNil (walkTy [] 0 t body)) p
 def walkM (L : List Nat) : Member → Block → Option (List Nat × List Nat × Block)
-  | .field id role t, p => if plainRole role then walkTy L id t p else Option.none
+  | .field id _ t, p => walkTy L id t p
   | .ifs var bs, p => walkIfS L var (idsB bs) (fun a => walkB L var bs a) p
   | .endless _ t, p => walkEndS (isByte t) (fun body => elemNil (walkTy [] 0 t body)) p
   | .optional ms, p => walkOptS (fun body => elemNil (walkMs L ms body)) p
@@ -554,17 +554,68 @@ private theorem wfMs_cons3 (m : Member) (ms : Members) (h : wfMs (.cons m ms) = 
     simp only [wfMs, Bool.and_eq_true] at h
     exact ⟨h.1.2, h.2, fun _ => h.1.1⟩
 
-theorem walkM_notSelfSize (L : List Nat) (m : Member) (p : Block) (x : List Nat × List Nat × Block) (h : walkM L m p = some x) :
-    isSelfSize m = false := by
-  cases m with
-  | field id role t =>
-    simp only [walkM] at h
-    split at h
-    · rename_i hp; exact plain_not_selfSize id role t hp
-    · cases h
-  | ifs _ _ => rfl
-  | endless _ _ => rfl
-  | optional _ => rfl
+theorem encMembers_selfSize' (id : Nat) (t : Ty) (ms : Members) (env : Env) (v : Val) (vs : List Val) :
+    encMembers (.cons (.field id .selfSize t) ms) env (v :: vs) =
+      (match encMembers ms (env.bind id v) vs with
+       | Option.none => Option.none
+       | some (b2, env2) =>
+         match v with
+         | .nat n => if n = b2.length then (encTy t env v).map fun b1 => (b1 ++ b2, env2) else Option.none
+         | _ => Option.none) := by
+  simp only [encMembers]; rfl
+
+/-- a member list encodes as its first member followed by the others (also when the first member is a `self.size` field, whose value is
+fixed by what follows it) -/
+theorem encMembers_cons_split (m : Member) (ms : Members) (env : Env) (v : Val) (vs : List Val) (b : Bytes) (env' : Env)
+    (h : encMembers (.cons m ms) env (v :: vs) = some (b, env')) :
+    ∃ b1 env1 b2, encMember m env v = some (b1, env1) ∧ encMembers ms env1 vs = some (b2, env') ∧ b = b1 ++ b2 := by
+  by_cases hss : isSelfSize m = true
+  · cases m with
+    | field id role t =>
+      cases role with
+      | selfSize =>
+        rw [encMembers_selfSize'] at h
+        cases he2 : encMembers ms (env.bind id v) vs with
+        | none => simp [he2] at h
+        | some p2 =>
+          obtain ⟨b2, env2⟩ := p2
+          simp only [he2] at h
+          cases v with
+          | nat n =>
+            simp only at h
+            split at h
+            · cases he1 : encTy t env (.nat n) with
+              | none => simp [he1] at h
+              | some b1 =>
+                simp only [he1, Option.map_some, Option.some.injEq, Prod.mk.injEq] at h
+                obtain ⟨hb, henv⟩ := h
+                subst hb; subst henv
+                exact ⟨b1, env.bind id (.nat n), b2, by simp [encMember, roleOk, he1], he2, rfl⟩
+            · cases h
+          | bytes _ => simp at h
+          | tuple _ => simp at h
+          | list _ => simp at h
+          | none => simp at h
+      | plain => simp [isSelfSize] at hss
+      | const c => simp [isSelfSize] at hss
+    | ifs _ _ => simp [isSelfSize] at hss
+    | endless _ _ => simp [isSelfSize] at hss
+    | optional _ => simp [isSelfSize] at hss
+  · have hss' : isSelfSize m = false := by simpa using hss
+    rw [encMembers_cons_general m ms env v vs hss'] at h
+    cases he1 : encMember m env v with
+    | none => simp [he1] at h
+    | some p1 =>
+      obtain ⟨b1, env1⟩ := p1
+      simp only [he1] at h
+      cases he2 : encMembers ms env1 vs with
+      | none => simp [he2] at h
+      | some p2 =>
+        obtain ⟨b2, env2⟩ := p2
+        simp only [he2, Option.some.injEq, Prod.mk.injEq] at h
+        obtain ⟨hb, henv⟩ := h
+        subst hb; subst henv
+        exact ⟨b1, env1, b2, rfl, he2, rfl⟩
 
 theorem mem_of_contains (L : List Nat) (v : Nat) (h : L.contains v = true) : v ∈ L := by simpa using h
 
@@ -746,19 +797,17 @@ theorem walkM_sound (ctx : Ctx) : ∀ (m : Member) (L : List Nat) (p : Block) (L
       ∃ st', runBlock ctx p st = runBlock ctx q st' ∧ st'.rest = r ∧ Agree L' env' st'.env ∧ Fr B st st'
   | .field id role t, L, p, L', B, q, hw, hwf, env, v, b, env', r, st, he, hr, _, ha => by
     simp only [walkM] at hw
-    split at hw
-    · simp only [encMember] at he
-      split at he
-      · cases ht : encTy t env v with
-        | none => simp [ht] at he
-        | some b1 =>
-          simp only [ht, Option.map_some, Option.some.injEq, Prod.mk.injEq] at he
-          obtain ⟨hb, henv⟩ := he
-          subst hb; subst henv
-          simp only [wfM] at hwf
-          exact walkTy_sound ctx t L id p L' B q hw hwf env v b1 r st ht hr ha
-      · cases he
-    · cases hw
+    simp only [encMember] at he
+    split at he
+    · cases ht : encTy t env v with
+      | none => simp [ht] at he
+      | some b1 =>
+        simp only [ht, Option.map_some, Option.some.injEq, Prod.mk.injEq] at he
+        obtain ⟨hb, henv⟩ := he
+        subst hb; subst henv
+        simp only [wfM] at hwf
+        exact walkTy_sound ctx t L id p L' B q hw hwf env v b1 r st ht hr ha
+    · cases he
   | .ifs var bs, L, p, L', B, q, hw, hwf, env, v, b, env', r, st, he, hr, htl, ha => by
     simp only [walkM] at hw
     simp only [wfM] at hwf
@@ -977,7 +1026,6 @@ theorem walkMs_sound (ctx : Ctx) : ∀ (ms : Members) (L : List Nat) (p : Block)
         obtain ⟨e1, e2, e3⟩ := hw
         subst e1; subst e2; subst e3
         obtain ⟨hwm, hwms, htf⟩ := wfMs_cons3 m ms hwf
-        have hss := walkM_notSelfSize L m p _ h1
         cases vs with
         | nil => cases m with
           | field id role t => cases role <;> simp [encMembers] at he
@@ -985,37 +1033,26 @@ theorem walkMs_sound (ctx : Ctx) : ∀ (ms : Members) (L : List Nat) (p : Block)
           | endless _ _ => simp [encMembers] at he
           | optional _ => simp [encMembers] at he
         | cons v vs =>
-          rw [encMembers_cons_general m ms env v vs hss] at he
-          cases he1 : encMember m env v with
-          | none => simp [he1] at he
-          | some y1 =>
-            obtain ⟨b1, env1⟩ := y1
-            simp only [he1] at he
-            cases he2 : encMembers ms env1 vs with
-            | none => simp [he2] at he
-            | some y2 =>
-              obtain ⟨b2, env2⟩ := y2
-              simp only [he2, Option.some.injEq, Prod.mk.injEq] at he
-              obtain ⟨hb, henv⟩ := he
-              subst hb; subst henv
-              have htl1 : tailFreeM m = true ∨ b2 ++ r = [] := by
-                cases ms with
-                | nil =>
-                  obtain ⟨_, hb2, _⟩ := encMembers_nil env1 vs b2 env2 he2
-                  subst hb2
-                  cases htl with
-                  | inl h => left; simpa [tailFree] using h
-                  | inr h => right; simpa using h
-                | cons m' ms' => left; exact htf (by simp)
-              have htl2 : tailFree ms = true ∨ r = [] := by
-                cases htl with
-                | inl h => left; simp only [tailFree, Bool.and_eq_true] at h; exact h.2
-                | inr h => right; exact h
-              obtain ⟨st1, hrun1, hrest1, hag1, hfr1⟩ :=
-                walkM_sound ctx m L p L1 B1 q1 h1 hwm env v b1 env1 (b2 ++ r) st he1 (by rw [hr, List.append_assoc]) htl1 ha
-              obtain ⟨st2, hrun2, hrest2, hag2, hfr2⟩ :=
-                walkMs_sound ctx ms L1 q1 L2 B2 q2 h2 hwms env1 vs b2 env2 r st1 he2 hrest1 htl2 hag1
-              exact ⟨st2, by rw [hrun1, hrun2], hrest2, hag2, hfr1.trans hfr2⟩
+          obtain ⟨b1, env1, b2, he1, he2, hb⟩ := encMembers_cons_split m ms env v vs b env' he
+          subst hb
+          have htl1 : tailFreeM m = true ∨ b2 ++ r = [] := by
+            cases ms with
+            | nil =>
+              obtain ⟨_, hb2, _⟩ := encMembers_nil env1 vs b2 env' he2
+              subst hb2
+              cases htl with
+              | inl h => left; simpa [tailFree] using h
+              | inr h => right; simpa using h
+            | cons m' ms' => left; exact htf (by simp)
+          have htl2 : tailFree ms = true ∨ r = [] := by
+            cases htl with
+            | inl h => left; simp only [tailFree, Bool.and_eq_true] at h; exact h.2
+            | inr h => right; exact h
+          obtain ⟨st1, hrun1, hrest1, hag1, hfr1⟩ :=
+            walkM_sound ctx m L p L1 B1 q1 h1 hwm env v b1 env1 (b2 ++ r) st he1 (by rw [hr, List.append_assoc]) htl1 ha
+          obtain ⟨st2, hrun2, hrest2, hag2, hfr2⟩ :=
+            walkMs_sound ctx ms L1 q1 L2 B2 q2 h2 hwms env1 vs b2 env' r st1 he2 hrest1 htl2 hag1
+          exact ⟨st2, by rw [hrun1, hrun2], hrest2, hag2, hfr1.trans hfr2⟩
 end
 
 /-- **C17 for messages with arrays, conditionals, nested structs and optional tails, all values at once**: if the static matcher accepts
